@@ -149,6 +149,12 @@ class RefSim:
       if fn == "reduce_or": return int(v != 0), 1
       if fn == "reduce_xor": return bin(v).count("1") & 1, 1
       raise KeyError(fn)
+    if k == "lst":
+      val, tw = 0, 0
+      for a in reversed(e[1:]):             # element 0 is least significant
+        v, w = self.ev(cpath, a, env, st)
+        val, tw = (val << w) | v, tw + w
+      return val, tw
     if k == "st":
       t = self._structs()[e[1]]
       val = 0
